@@ -563,3 +563,69 @@ Proof.
   intros mode om t i att comp r o f Hn H Ho Hf. unfold fs_all_versions, fs_query in H.
   eapply fs_search_answers_hold; eauto. apply complete_query_covers; auto.
 Qed.
+
+(* ---- closed forms asked for by the audit: `contains`, and = / != across kinds ---- *)
+
+Lemma coerce_list : forall mode op l fv, coerce mode op (VList l) fv = Ok (VList l, fv).
+Proof. intros. destruct fv; reflexivity. Qed.
+Lemma coerce_dict : forall mode op m fv, coerce mode op (VDict m) fv = Ok (VDict m, fv).
+Proof. intros. destruct fv; reflexivity. Qed.
+
+(* `contains` on a list value: the filter value equals (==) one of the elements *)
+Theorem op_contains_list : forall mode f l,
+  fop_ f = OContains -> (forall d, fval f <> VDict d) ->
+  check_property mode f (VList l) = Ok (existsb (py_eq (fval f)) l).
+Proof.
+  intros mode f l Hop Hnd. unfold check_property. rewrite coerce_list. cbn [bind]. rewrite Hop.
+  destruct (fval f); try reflexivity. exfalso. eapply Hnd; eauto.
+Qed.
+
+(* `contains` with a dict as filter value on a dict property: it equals one of the property's VALUES *)
+Theorem op_contains_dict_value : forall mode f d m,
+  fop_ f = OContains -> fval f = VDict d ->
+  check_property mode f (VDict m) = Ok (existsb (py_eq (VDict d)) (map snd m)).
+Proof.
+  intros mode f d m Hop Hv. unfold check_property. rewrite coerce_dict. cbn [bind]. rewrite Hop, Hv. reflexivity.
+Qed.
+
+(* `contains` with a string on a dict property: it is one of the KEYS *)
+Theorem op_contains_dict_key : forall mode f k m,
+  fop_ f = OContains -> fval f = VStr k ->
+  check_property mode f (VDict m) = Ok (match plookup k m with Some _ => true | None => false end).
+Proof.
+  intros mode f k m Hop Hv. unfold check_property. rewrite coerce_dict. cbn [bind]. rewrite Hop, Hv. reflexivity.
+Qed.
+
+(* a list-valued property: `contains` is asked of every element ("any element"), e.g. labels contains "x"
+   holds when "x" is a substring of one of the labels *)
+Theorem op_contains_on_list_property : forall mode f p m l,
+  split_dot (fprop f) = [p] -> plookup p m = Some (VList l) ->
+  check_filter mode f (VDict m) = any_res (check_property mode f) l.
+Proof. intros mode f p m l Hs Hl. unfold check_filter. rewrite Hs. cbn [check_path]. rewrite Hl. reflexivity. Qed.
+
+(* = and != between values of different kinds (a number is never == a string, a list never == a tuple, ...) *)
+Inductive vkind := KNone | KNum | KStr | KTime | KList | KTuple | KDict.
+Definition kind_of (x : pv) : vkind :=
+  match x with
+  | VNone => KNone | VBool _ | VInt _ | VFloat _ => KNum | VStr _ => KStr | VTime _ => KTime
+  | VList _ => KList | VTuple _ => KTuple | VDict _ => KDict
+  end.
+
+Lemma py_eq_other_kind : forall x v, kind_of x <> kind_of v -> py_eq x v = false.
+Proof. intros x v H. destruct x, v; try reflexivity; exfalso; apply H; reflexivity. Qed.
+
+Theorem op_eq_other_kind : forall mode f x,
+  kind_of x <> kind_of (fval f) -> coerce mode (fop_ f) x (fval f) = Ok (x, fval f) ->
+  (fop_ f = OEq -> check_property mode f x = Ok false) /\ (fop_ f = ONe -> check_property mode f x = Ok true).
+Proof.
+  intros mode f x Hk Hc. unfold check_property. rewrite Hc. cbn [bind].
+  split; intro Hop; rewrite Hop; rewrite (py_eq_other_kind _ _ Hk); reflexivity.
+Qed.
+
+(* the text comparison of the code as it is, on a concrete pair *)
+Theorem ts_on_dicts_refuted_concrete :
+  parse_ts (u "2020-01-01T00:00:00Z") = Some 1577836800000000%Z /\
+  parse_ts (u "2020-01-01T00:00:00.5Z") = Some 1577836800500000%Z /\
+  check_property TextOnDicts (F "modified" OGt (vs "2020-01-01T00:00:00.5Z")) (vs "2020-01-01T00:00:00Z") = Ok true /\
+  check_property InstantOnDicts (F "modified" OGt (vs "2020-01-01T00:00:00.5Z")) (vs "2020-01-01T00:00:00Z") = Ok false.
+Proof. repeat split; vm_compute; reflexivity. Qed.
